@@ -342,7 +342,8 @@ func reifyGetField(
 		// None primitive types always get initialized even if it doesn't implement the
 		// Initializer interface, because nested types might implement the Initializer interface.
 		if value == nil {
-			value = &cfgNil{cfgPrimitive{cfg.ctx, cfg.metadata}}
+			ctx := context{parent: cfgSub{cfg}, field: name}
+			value = &cfgNil{cfgPrimitive{ctx, cfg.metadata}}
 		}
 	}
 
@@ -367,6 +368,9 @@ func reifyValue(
 		if err != nil {
 			ctx := val.Context()
 			return reflect.Value{}, raisePathErr(err, val.meta(), "", ctx.path("."))
+		}
+		if err := runValidators(reified, opts.validators); err != nil {
+			return reflect.Value{}, raiseValidation(val.Context(), val.meta(), "", err)
 		}
 		return reflect.ValueOf(reified), nil
 	}
@@ -482,6 +486,12 @@ func reifyMergeValue(
 		err := unpackWith(opts.opts, v, val)
 		if err != nil {
 			return reflect.Value{}, err
+		}
+		if err := runValidators(old.Interface(), opts.validators); err != nil {
+			return reflect.Value{}, raiseValidation(val.Context(), val.meta(), "", err)
+		}
+		if err := tryValidate(old); err != nil {
+			return reflect.Value{}, raiseValidation(val.Context(), val.meta(), "", err)
 		}
 		return old, nil
 	}
@@ -664,8 +674,22 @@ func reifyPrimitive(
 ) (reflect.Value, Error) {
 	// zero initialize value if val==nil
 	if isNil(val) {
-		v := pointerize(t, baseType, reflect.Zero(baseType))
-		return tryInitDefaults(v), nil
+		v := tryInitDefaults(pointerize(t, baseType, reflect.Zero(baseType)))
+
+		// defaults must validate like values read from the configuration
+		var ctx context
+		var meta *Meta
+		if val != nil {
+			ctx, meta = val.Context(), val.meta()
+		}
+		base := chaseValuePointers(v)
+		if err := runValidators(base.Interface(), opts.validators); err != nil {
+			return reflect.Value{}, raiseValidation(ctx, meta, "", err)
+		}
+		if err := tryValidate(base); err != nil {
+			return reflect.Value{}, raiseValidation(ctx, meta, "", err)
+		}
+		return v, nil
 	}
 
 	var v reflect.Value
